@@ -280,11 +280,23 @@ func check(prop, tier string) int {
 			fmt.Printf("NOTE: open finding %s no longer reproduces and its obligation is discharged; update known_findings.jsonl\n", fd.ID)
 		}
 	}
+	// thorough tier: the property's must-fail canaries on a scratch copy (see canary.go)
+	var canaryLog []map[string]interface{}
+	var canaryMissed []string
+	if tier == "thorough" {
+		canaryLog, canaryMissed = runCanaries(prop, 4)
+		for _, m := range canaryMissed {
+			fmt.Printf("CANARY-NOT-DETECTED property=%s canary=%s (a change known to break the property is no longer reported: the check cannot be trusted)\n", prop, m)
+		}
+	}
 	// open findings whose obligation no longer exists: report (the contract moved)
 	writeEvidence(prop, tier, seed, time.Since(t0).Seconds(), recs, nObl, nDis, funcs, assumed, bySolver, violations, spec, map[string]interface{}{
-		"solver_seconds": round3(solverTime), "known_findings_seen": knownSeen, "aux_not_proved": auxFailed, "dropped_statements": dropped, "timeout_s": timeout, "finding_replays": replayLog})
+		"solver_seconds": round3(solverTime), "known_findings_seen": knownSeen, "aux_not_proved": auxFailed, "dropped_statements": dropped, "timeout_s": timeout, "finding_replays": replayLog, "must_fail_canaries": canaryLog, "canaries_not_detected": canaryMissed})
 	if violations > 0 {
 		return 1
+	}
+	if len(canaryMissed) > 0 {
+		return 3
 	}
 	fmt.Printf("OK property=%s tier=%s obligations=%d discharged=%d functions=%d wall=%.1fs\n", prop, tier, nObl, nDis, len(funcs), time.Since(t0).Seconds())
 	return 0
